@@ -519,6 +519,54 @@ func VerifC05_FinishedWorkDoesNotHoldUpStop() {
 	rt.Reach("finishedwork-end")
 }
 
+// ---- work that panics in answer to the cancellation while nobody reads the
+// module error channel (its consumer may have been stopped already): the stop
+// still completes, and a stop routine's error does not wedge the stop sequence ----
+
+func VerifC05_PanickingWorkWithUnreadErrorChannel() {
+	rt.NoTimers()
+	rt.SchedYieldOnly(true)
+	SetStdErrReporting(false)
+	c05Reset()
+	moduleStopTimeout = time.Hour // (a report that blocks must hang, not time out)
+	SetErrorReportingChannel(make(chan *ModuleError)) // unbuffered, never read
+	defer SetErrorReportingChannel(nil)
+	stopFails := rt.Bool("stop-routine-returns-an-error")
+	m := initNewModule("m", nil, nil, func() error {
+		if stopFails {
+			return errors.New("stop failed")
+		}
+		return nil
+	})
+	modules = map[string]*Module{"m": m}
+	m.status = StatusOnline
+	close(m.startComplete)
+	began := false
+	body := func(ctx context.Context) error {
+		began = true
+		<-ctx.Done()
+		panic("worker panics when cancelled")
+	}
+	switch rt.Choice("kind", 3) {
+	case 0:
+		m.StartWorker("w", body)
+	case 1:
+		m.StartHighPriorityMicroTask("mt", body)
+	case 2:
+		// no work item: only the stop routine
+		began = true
+	}
+	rt.Yield()
+	if !began {
+		return
+	}
+	err := stopModules()
+	rt.Assert((err != nil) == stopFails, "unreadchannel/stop-error-returned")
+	rt.Assert(m.Status() == StatusOffline, "unreadchannel/offline")
+	rt.Assert(atomic.LoadInt32(m.workerCnt) == 0 && atomic.LoadInt32(m.microTaskCnt) == 0, "unreadchannel/nothing-counted-as-running")
+	rt.Reach("unreadchannel-end")
+}
+
 func c05Reset() {
 	modules = make(map[string]*Module)
 	modulesLocked.UnSet()
